@@ -28,6 +28,7 @@ type StressCase struct {
 	Goroutines int    `json:"goroutines"`
 	Procs      int    `json:"procs"`
 	OpsPerG    int    `json:"ops_per_goroutine"`
+	Burst      bool   `json:"deep_burst"`
 	Note       string `json:"note,omitempty"`
 }
 
@@ -239,42 +240,64 @@ type opRec struct {
 
 // stress runs one round; it returns a failure and the number of overlapping
 // pairs of operations on the same shared input by different goroutines.
-func stress(c StressCase, st *report.Stats) (*report.Failure, int) {
-	old := runtime.GOMAXPROCS(c.Procs)
-	defer runtime.GOMAXPROCS(old)
-	e := buildEnv(c.Seed, c.Corpus)
+// prepared is a corpus with its sequential reference results.
+type prepared struct {
+	e   *env
+	ref []string
+}
+
+var prepCache = map[[2]uint64]*prepared{}
+
+// prepare builds the corpus and the sequential reference (forward twice, then in
+// reverse order: a result must not depend on which call came before it); it is
+// shared by the (goroutines, GOMAXPROCS) settings of one round.
+func prepare(seed uint64, corpus int) (*prepared, *report.Failure) {
+	if p, ok := prepCache[[2]uint64{seed, uint64(corpus)}]; ok {
+		return p, nil
+	}
+	e := buildEnv(seed, corpus)
 	nin, nop := len(e.inputs), len(opNames)
-	// sequential reference, three times (determinism)
 	ref := make([]string, nin*nop)
-	for round := 0; round < 3; round++ {
+	for round := 0; round < 2; round++ {
 		for i := range e.inputs {
 			for op := 0; op < nop; op++ {
 				r := e.doOp(op, &e.inputs[i])
 				if round == 0 {
 					ref[i*nop+op] = r
 				} else if r != ref[i*nop+op] {
-					return report.Failf("nondeterministic", "sequential call %d of %s on %q (df=%q) returned %q, the first call %q", round+1, opNames[op], e.inputs[i].query, e.inputs[i].df, r, ref[i*nop+op]), 0
+					return nil, report.Failf("nondeterministic", "sequential call %d of %s on %q (df=%q) returned %q, the first call %q", round+1, opNames[op], e.inputs[i].query, e.inputs[i].df, r, ref[i*nop+op])
 				}
 			}
 		}
 	}
-	// the same calls in reverse order: a result must not depend on which call came
-	// before it (stale state kept between calls)
 	for i := nin - 1; i >= 0; i-- {
 		for op := nop - 1; op >= 0; op-- {
 			if r := e.doOp(op, &e.inputs[i]); r != ref[i*nop+op] {
-				return report.Failf("depends-on-call-history", "%s on %q (df=%q) returned %q when the calls were made in reverse order, %q in forward order", opNames[op], e.inputs[i].query, e.inputs[i].df, r, ref[i*nop+op]), 0
+				return nil, report.Failf("depends-on-call-history", "%s on %q (df=%q) returned %q when the calls were made in reverse order, %q in forward order", opNames[op], e.inputs[i].query, e.inputs[i].df, r, ref[i*nop+op])
 			}
 		}
 	}
 	if f := unchanged(e, "after the sequential runs"); f != nil {
+		return nil, f
+	}
+	p := &prepared{e, ref}
+	prepCache = map[[2]uint64]*prepared{{seed, uint64(corpus)}: p}
+	return p, nil
+}
+
+func stress(c StressCase, st *report.Stats) (*report.Failure, int) {
+	old := runtime.GOMAXPROCS(c.Procs)
+	defer runtime.GOMAXPROCS(old)
+	p, f := prepare(c.Seed, c.Corpus)
+	if f != nil {
 		return f, 0
 	}
-	// deep burst: every goroutine renders the same deeply nested shared expressions
-	// at the same moment (aims at process-global counters, pools and limits that only
-	// bite when several deep calls are in flight)
-	if f := deepBurst(c); f != nil {
-		return f, 0
+	e, ref := p.e, p.ref
+	nin, nop := len(e.inputs), len(opNames)
+	if c.Burst {
+		if f := deepBurst(c); f != nil {
+			return f, 0
+		}
 	}
 	// concurrent phase: no synchronisation between workers apart from the start
 	// barrier and the final join (anything more would add happens-before edges and
@@ -331,7 +354,7 @@ func deepBurst(c StressCase) *report.Failure {
 	nest := func(open, mid, close string, n int) string {
 		return strings.Repeat(open, n) + mid + strings.Repeat(close, n)
 	}
-	queries := []string{nest("NOT (", "a:[1 TO 5]", ")", 220), nest("(", "a:b OR c:d", ")", 220), nest("a:1 AND (", "b:2", ")", 220), nest("+(", "a:(x OR y)", ")", 220)}
+	queries := []string{nest("NOT (", "a:[1 TO 5]", ")", 130), nest("(", "a:b OR c:d", ")", 130), nest("a:1 AND (", "b:2", ")", 130), nest("+(", "a:(x OR y)", ")", 130)}
 	type res struct{ r, p, t string }
 	ref := make([]res, len(queries))
 	trees := make([]*expr.Expression, len(queries))
@@ -373,7 +396,7 @@ func deepBurst(c StressCase) *report.Failure {
 				}
 			}()
 			<-start
-			for round := 0; round < 3; round++ {
+			for round := 0; round < 2; round++ {
 				for i := range queries {
 					if got := one(i); got != ref[i] && fails[g] == "" {
 						fails[g] = fmt.Sprintf("goroutine %d: rendering the %d-byte nested query %.40q... concurrently gave %.200q / %.200q / %.200q, sequentially %.200q / %.200q / %.200q", g, len(queries[i]), queries[i], got.r, got.p, got.t, ref[i].r, ref[i].p, ref[i].t)
@@ -472,11 +495,11 @@ func TestC14(t *testing.T) {
 	cfg := report.Load()
 	st := report.New("C14", cfg)
 	defer st.Finish(t)
-	st.Rule("a seed-determined corpus of queries (rapid trees over every operator and leaf form with hostile values, plus the repository's own inputs; every third with a default field), each parsed once into a SHARED expression; N goroutines behind a barrier each run a seed-determined sequence of {Parse, ToPostgres, ToParameterizedPostgres, Render, RenderParam, String, %#v, Validate, json.Marshal, json.Unmarshal, Render with a shared custom driver} concentrated on a few hot inputs, over a grid of goroutine counts and GOMAXPROCS values, in a binary built with -race. Oracle: every concurrent result equals the sequential result for the same (operation, input); three sequential runs agree; each shared tree is deep-equal to a structural copy taken before use; the race detector reports nothing. Non-trivial = a pair of operations on the same shared input by two different goroutines whose wall-clock intervals overlapped; distinct by (input, operations, goroutines).")
+	st.Rule("a seed-determined corpus of queries (rapid trees over every operator and leaf form with hostile values, plus the repository's own inputs; every third with a default field), each parsed once into a SHARED expression; N goroutines behind a barrier each run a seed-determined sequence of {Parse, ToPostgres, ToParameterizedPostgres, Render, RenderParam, String, %#v, Validate, json.Marshal, json.Unmarshal, Render with a shared custom driver} concentrated on a few hot inputs, over a grid of goroutine counts and GOMAXPROCS values, in a binary built with -race. Oracle: every concurrent result equals the sequential result for the same (operation, input); repeated sequential runs (forward and in reverse order) agree; each shared tree is deep-equal to a structural copy taken before use; the race detector reports nothing. Non-trivial = a pair of operations on the same shared input by two different goroutines whose wall-clock intervals overlapped; distinct by (input, operations, goroutines).")
 	st.Assume("the harness does not own the Go scheduler: schedules are sampled, not enumerated", "the race detector only sees executed code", "workers share no harness-side synchronisation besides the start barrier and the final join, so that no happens-before edge hides a race")
 	type grid struct{ g, p int }
 	grids := []grid{{2, 2}, {8, 4}, {32, 16}, {8, 1}}
-	rounds, ops, corpus := 2, 400, 200
+	rounds, ops, corpus := 3, 500, 200
 	if cfg.Thorough() {
 		grids = []grid{{2, 1}, {2, 2}, {8, 2}, {8, 4}, {32, 4}, {32, 16}, {128, 16}, {16, 16}}
 		rounds, ops, corpus = 8, 1500, 600
@@ -488,7 +511,7 @@ func TestC14(t *testing.T) {
 			if (r*len(grids)+gi)%cfg.NShards != cfg.Shard {
 				continue
 			}
-			c := StressCase{Seed: cfg.Seed*1000 + uint64(r), Corpus: corpus, Goroutines: gr.g, Procs: gr.p, OpsPerG: ops}
+			c := StressCase{Seed: cfg.Seed*1000 + uint64(r), Corpus: corpus, Goroutines: gr.g, Procs: gr.p, OpsPerG: ops, Burst: r == 0 && gi%2 == 1}
 			f, ov := stress(c, st)
 			for k := 0; k < gr.g*ops; k++ {
 				st.Eval()
